@@ -257,6 +257,11 @@ def _repay(sim, m, a):
                 return None
             kw["repay_collateral_token"] = ct
             sim.last_call["collateral_token"] = ct.name
+    elif a.get("named_token") is not None:
+        # a cash repayment that also names a collateral token: documented as ignored without repay_with_collateral
+        ct = _tok(sim, m, a, "named_token")
+        if ct is not None:
+            kw["repay_collateral_token"] = ct
     return lambda: m.repay(t, amt, **kw)
 
 
